@@ -6,15 +6,12 @@ Require Import AOV.model.Purity AOV.gen.Gen_effects AOV.proofs.C20_proofs.
 Import ListNotations.
 Local Open Scope string_scope.
 
-(* the public functions whose footprint is NOT pure at the pinned commit: open known findings of C20, plus
+(* the public functions whose footprint is NOT pure on the current tree: the open known finding of C20, plus
    two over-approximations of the syntactic analysis that the dynamic check shows to be pure *)
 Definition known_impure : list (string * string) :=
-  [ ("aotools.image_processing.centroiders", "correlation_centroid");   (* im -= ..., im.shape = ..., ref -= ... *)
-    ("aotools.image_processing.centroiders", "centre_of_gravity");      (* img[zero_coords] = 0 on the caller's stack *)
-    ("aotools.image_processing.centroiders", "brightest_pixel");        (* img -= ..., clip(out=img) *)
-    ("aotools.image_processing.contrast", "rms_contrast");              (* image /= image.max() *)
-    ("aotools.opticalpropagation", "angularSpectrum");                  (* z == 0 returns the argument itself *)
-    ("aotools.turbulence.profile_compression", "optimal_grouping") ].   (* NumPy's global generator *)
+  [ ("aotools.turbulence.profile_compression", "optimal_grouping") ].   (* NumPy's global generator *)
+(* repaired in /repo (fix commits de54f5b d3fd2bb 735cafe a0878b3 38ff11a) and therefore no longer excepted: correlation_centroid,
+   centre_of_gravity, brightest_pixel, rms_contrast (in-place writes), angularSpectrum (returned its argument for z = 0) *)
 Definition over_approximated : list (string * string) :=
   [ ("aotools.functions.karhunenLoeve", "rebin");     (* a[tuple(int arrays)]: advanced indexing copies *)
     ("aotools.interpolation", "zoom") ].              (* interp2d(copy=False): cannot run with the installed SciPy *)
